@@ -21,14 +21,15 @@ from .. import alpha, core, ref, sched
 
 LEVEL = "model_checking"
 RULE = ("closed loop: attitude in {centre, 8 corners of |r_i|<=0.3} (thorough + |r| up to 0.9) x bias {(0.07,0.02,-0.07),(-0.05,0.05,0.05),0} x initialize {T,F} x "
-        "(decl,incl) {(0,0),(0,0.3),(0.2,1.0)} x rates {default,(1/400,1/100,1/25,1/100)}; quick = deterministic pairwise-covering sub-lattice, thorough = full product; "
+        "(decl,incl) {(0,0),(0,0.3),(0.2,1.0)} x rates {default,(1/400,1/100,1/25,1/100), corrections rate-limited to 50/25 Hz}; quick = deterministic pairwise-covering sub-lattice, thorough = full product; "
         "schedules: all tie-break orders with <= 1 deviation within the first 10 ms (thorough <= 2 within 50 ms) on one configuration. A state = one logged row; "
         "a transition = one logger period of the real system. non-trivial = run with non-zero attitude or bias; sensors: 7 axes x 16 angles x 3 decl x 4 incl")
 ASSUMPTIONS = ["thresholds are >= 3x the worst value observed over the thorough lattice on the repaired tree (default rates 0.0098 rad / 0.0041 rad/s; 100 Hz IMU 0.0294 / 0.0127)", "np.random.randn stubbed to zeros; noise disabled",
                "initial conditions between lattice points and horizons beyond 20/30 s not covered"]
 # >= 3x the worst value observed over the whole thorough lattice on the repaired tree:
-# default rates 0.0098 rad / 0.0041 rad/s, slow rates (100 Hz IMU, RK4 step error dominates) 0.0294 rad / 0.0127 rad/s
-TOL = {"default": (0.03, 0.0125), "slow": (0.09, 0.04)}
+# default rates 0.0098 rad / 0.0041 rad/s, slow rates (100 Hz IMU, RK4 step error dominates) 0.0294 rad / 0.0127 rad/s,
+# rate-limited corrections (accel every 4th IMU message, mag every 2nd) 0.0104 rad / 0.0059 rad/s
+TOL = {"default": (0.03, 0.0125), "slow": (0.09, 0.04), "limited": (0.035, 0.018)}
 ATT_TOL, BIAS_TOL = TOL["default"]
 
 _L = {}
@@ -49,7 +50,9 @@ def bounds(tier):
     return dict(tf=30 if tier == "thorough" else 20, deviations=2 if tier == "thorough" else 1)
 
 
-RATES = {"default": {}, "slow": {"sim/dt_sim": 1.0 / 400, "sim/dt_imu": 1.0 / 100, "sim/dt_mag": 1.0 / 25, "logger/dt": 1.0 / 100}}
+RATES = {"default": {}, "slow": {"sim/dt_sim": 1.0 / 400, "sim/dt_imu": 1.0 / 100, "sim/dt_mag": 1.0 / 25, "logger/dt": 1.0 / 100},
+         # corrections rate-limited below the sensor rates (prediction on every IMU message, corrections on every 4th / 2nd)
+         "limited": {"mrp/dt_min_accel": 1.0 / 50, "mrp/dt_min_mag": 1.0 / 25}}
 
 
 def run_loop(cfg, chooser=None):
@@ -97,7 +100,7 @@ def judge(res, cfg, d, err, case, sched_choices=None):
     big = max(abs(v) for v in cfg["x0"][:3]) > 0.3 and not cfg["initialize"]
     if big:
         # outside the box and started at zero: the transient is longer; only a loose bound is judged
-        ATT_TOL, BIAS_TOL = 0.2, 0.15
+        ATT_TOL, BIAS_TOL = 0.4, 0.35  # worst observed 0.12 rad / 0.10 rad/s (rate-limited corrections, 0.9 MRP, started at zero)
     att = np.array([ref.rot_dist(ref.R_from_quat(a), ref.R_from_quat(b)) for a, b in zip(qs[m], qe[m])])
     berr = np.abs(bs[m] - be[m])
     res.outcomes.add(hash((round(float(att.max()), 6), tuple(np.round(berr.max(axis=0), 6)))))
@@ -119,18 +122,18 @@ def judge(res, cfg, d, err, case, sched_choices=None):
 
 
 def lattice(tier):
-    atts = [[0.0, 0.0, 0.0]] + [[a, b, c] for a in (-0.3, 0.3) for b in (-0.3, 0.3) for c in (-0.3, 0.3)]
+    atts = [[0.0, 0.0, 0.0]] + [[a, b, c] for a in (-0.3, 0.3) for b in (-0.3, 0.3) for c in (-0.3, 0.3)] + [[0.0, 0.0, 0.8]]  # last: heading 154 deg
     if tier == "thorough":
         atts += [[0.9, 0, 0], [0, -0.9, 0], [0.5, 0.5, -0.5], [0, 0, 0.9]]
     biases = [[0.07, 0.02, -0.07], [-0.05, 0.05, 0.05], [0.0, 0.0, 0.0]]
     inits = [True, False]
     mags = [(0.0, 0.0), (0.0, 0.3), (0.2, 1.0)]
-    rates = ["default", "slow"]
-    full = list(itertools.product(range(len(atts)), range(len(biases)), range(2), range(3), range(2)))
+    rates = ["default", "slow", "limited"]
+    full = list(itertools.product(range(len(atts)), range(len(biases)), range(2), range(3), range(3)))
     if tier != "thorough":
         # deterministic pairwise covering: greedy over the full product
         need = set()
-        dims = [len(atts), len(biases), 2, 3, 2]
+        dims = [len(atts), len(biases), 2, 3, 3]
         for i in range(5):
             for j in range(i + 1, 5):
                 for a in range(dims[i]):
